@@ -1359,7 +1359,7 @@ class Interp:
         if isinstance(t, ast.Name):
             env.store(t.id, v)
         elif isinstance(t, ast.Attribute):
-            self.set_attr(self.eval(t.value, env), t.attr, v)
+            self.set_attr(self.eval(t.value, env), self.mangle(t.attr), v)
         elif isinstance(t, ast.Subscript):
             self.set_item(self.eval(t.value, env), self.eval_slice(t.slice, env), v)
         elif isinstance(t, (ast.Tuple, ast.List)):
@@ -1674,8 +1674,20 @@ class Interp:
         env.store(e.target.id, v)
         return v
 
+    def mangle(self, name):
+        """private-name mangling of identifiers inside a class body (done by the compiler in
+        CPython, so ast.parse shows the unmangled name)"""
+        if name.startswith("__") and not name.endswith("__"):
+            for fr in reversed(self.frames):
+                dc = fr.defining_class
+                if dc is not None:
+                    return "_" + dc.__name__.lstrip("_") + name
+                if "<locals>" not in fr.qual:
+                    break
+        return name
+
     def e_Attribute(self, e, env):
-        return self.get_attr(self.eval(e.value, env), e.attr)
+        return self.get_attr(self.eval(e.value, env), self.mangle(e.attr))
 
     def e_Subscript(self, e, env):
         return self.get_item(self.eval(e.value, env), self.eval_slice(e.slice, env))
